@@ -439,6 +439,9 @@ static int c09_stream(char *line)
    return 0;
 }
 
+/* every sample the call says it produced must have been written: the buffer is poisoned with NaN before each call */
+static void poison(float *x, size_t n) { size_t i; for (i = 0; i < n; i++) x[i] = NAN; }
+
 /* run one token list; which = 0: receiver under test (events are printed), 1: reference receiver (output kept only) */
 static void c09_run(int start, char *toks, int which)
 {
@@ -447,7 +450,8 @@ static void c09_run(int start, char *toks, int which)
    long end = (long)s9.npk * s9.oframe;
    int next = start;                         /* next packet index for T tokens */
    int cap = s9.fo / 25 * 3, q = s9.fo / 400;
-   float *out = (float *)malloc(sizeof(float) * (size_t)(cap > 48 * q ? cap : 48 * q) * 2 * s9.co);
+   size_t outn = (size_t)(cap > 48 * q ? cap : 48 * q) * 2 * s9.co;
+   float *out = (float *)malloc(sizeof(float) * outn);
    char *tok;
    memcpy(d, s9.snap + (size_t)s9.dsize * start, (size_t)s9.dsize);
    if (which == 0) { js_open("W"); js_int("x", s9.x); js_int("w", s9.w); js_int("start", start); log_peek(d); js_close(); }
@@ -457,31 +461,37 @@ static void c09_run(int start, char *toks, int which)
       else if (t == 'P') u = atoi(tok + 1);
       else if (t == 'F') { char *c = strchr(tok, ':'); if (!c) break; i = atoi(tok + 1); u = atoi(c + 1); if (i < 0 || i >= s9.npk) break; }
       else if (t == 'T') {
-         int n = atoi(tok + 1), m = 0, bad = 0, bad2 = 0, first = next; int rets[256]; opus_uint32 ea[256], da[256]; long p0 = pos;
+         int n = atoi(tok + 1), m = 0, bad = 0, bad2 = 0, first = next; int rets[256], es[256], ts[256]; opus_uint32 ea[256], da[256]; long p0 = pos;
          double acc_e = 0, acc_s = 0; long acc_n = 0;
          if (n > 256) n = 256;
          next = (int)(pos / s9.oframe); first = next;      /* the packets that follow what has been played so far */
          while (m < n && next < s9.npk) {
+            poison(out, outn);
             r = opus_decode_float(d, s9.pkt[next], s9.len[next], out, cap, 0);
             opus_decoder_ctl(d, OPUS_GET_FINAL_RANGE(&dr));
-            rets[m] = r; ea[m] = s9.er[next]; da[m] = dr; m++; next++;
+            rets[m] = r; ea[m] = s9.er[next]; da[m] = dr; es[m] = ts[m] = -20000; m++; next++;
             if (r > 0 && pos + r <= end) {
                if (which == 1) memcpy(s9.ref + (size_t)pos * s9.co, out, sizeof(float) * (size_t)r * s9.co);
                else {
-                  acc_e += ms_diff(out, s9.twin + (size_t)pos * s9.co, (size_t)r * s9.co, &bad) * r;
-                  acc_s += ms_of(s9.twin + (size_t)pos * s9.co, (size_t)r * s9.co, &bad2) * r; acc_n += r;
+                  int b1 = 0, b2 = 0;
+                  double e1 = ms_diff(out, s9.twin + (size_t)pos * s9.co, (size_t)r * s9.co, &b1);
+                  double e2 = ms_of(s9.twin + (size_t)pos * s9.co, (size_t)r * s9.co, &b2);
+                  es[m - 1] = cdb_ms(e1, b1); ts[m - 1] = cdb_ms(e2, b2);       /* per packet: error vs twin, twin level */
+                  bad |= b1; bad2 |= b2;
+                  acc_e += e1 * r; acc_s += e2 * r; acc_n += r;
                }
                pos += r;
             }
          }
          if (which == 0) {
             js_open("rx"); js_str("t", "T"); js_int("p", p0 / q); js_int("i", first); js_int("n", m); js_int("u", (pos - p0) / q); js_int("want", s9.oframe);
-            js_arr_i("rets", rets, m); js_dig("ed", ea, sizeof(opus_uint32) * (size_t)m); js_dig("dd", da, sizeof(opus_uint32) * (size_t)m);
+            js_arr_i("rets", rets, m); js_arr_i("es", es, m); js_arr_i("ts", ts, m); js_dig("ed", ea, sizeof(opus_uint32) * (size_t)m); js_dig("dd", da, sizeof(opus_uint32) * (size_t)m);
             js_int("e", cdb_ms(acc_n ? acc_e / acc_n : 0, bad)); js_int("tl", cdb_ms(acc_n ? acc_s / acc_n : 0, bad2)); log_peek(d); js_close();
          }
          continue;
       } else break;
       /* single calls */
+      poison(out, outn);
       if (t == 'D' || (t == 'X' && s9.len[i] > 2)) {
          fs = cap; r = opus_decode_float(d, s9.pkt[i], s9.len[i], out, cap, 0); next = i + 1;
       } else if (t == 'X') {
